@@ -64,24 +64,34 @@ impl MathOp {
     #[allow(clippy::cast_sign_loss)]
     #[must_use]
     pub fn operate(&self, x: i32, y: i32) -> i32 {
+        // RV32IM arithmetic wraps around, and shifts only use the low five
+        // bits of the shift amount.
+        let shamt = (y as u32) & 0x1f;
         match self {
-            MathOp::Add => x + y,
+            MathOp::Add => x.wrapping_add(y),
             MathOp::And => x & y,
             MathOp::Or => x | y,
-            MathOp::Sll => x << y,
+            MathOp::Sll => x.wrapping_shl(shamt),
             MathOp::Slt => i32::from(x < y),
             MathOp::Sltu => i32::from((x as u32) < (y as u32)),
-            MathOp::Sra => x >> y,
-            MathOp::Srl => (x as u32 >> y) as i32,
-            MathOp::Sub => x - y,
+            MathOp::Sra => x.wrapping_shr(shamt),
+            MathOp::Srl => (x as u32).wrapping_shr(shamt) as i32,
+            MathOp::Sub => x.wrapping_sub(y),
             MathOp::Xor => x ^ y,
-            MathOp::Mul => x * y,
-            MathOp::Mulh | MathOp::Mulhsu => {
+            MathOp::Mul => x.wrapping_mul(y),
+            // signed x signed
+            MathOp::Mulh => {
                 let (x, y) = (i64::from(x), i64::from(y));
                 ((x * y) >> 32) as i32
             }
+            // signed x unsigned
+            MathOp::Mulhsu => {
+                let (x, y) = (i64::from(x), i64::from(y as u32));
+                ((x * y) >> 32) as i32
+            }
+            // unsigned x unsigned
             MathOp::Mulhu => {
-                let (x, y) = (x as u64, y as u64);
+                let (x, y) = (u64::from(x as u32), u64::from(y as u32));
                 ((x * y) >> 32) as i32
             }
             // NOTE: The RISC-V spec doesn't trap for integer division by zero,
@@ -90,10 +100,11 @@ impl MathOp {
             // - divu: 2^32 - 1
             // - rem:  x
             // - remu: x
+            // Signed overflow (i32::MIN / -1) gives i32::MIN with remainder 0.
             MathOp::Div => {
                 match y {
                     0 => -1, // 2^32 - 1 as i32
-                    _ => x / y,
+                    _ => x.wrapping_div(y),
                 }
             }
             MathOp::Divu => match y {
@@ -102,7 +113,7 @@ impl MathOp {
             },
             MathOp::Rem => match y {
                 0 => x,
-                _ => x % y,
+                _ => x.wrapping_rem(y),
             },
             MathOp::Remu => match y {
                 0 => x,
